@@ -4,10 +4,12 @@ package distiller
 // the right id). Injected with -overlay; runs the public API on generated pages that carry exactly one
 // frame (iframe / object / tweet blockquote) between long paragraphs, for a family of hosts
 // (allow-listed, sub-domains, look-alikes, user-info / path / query tricks) x scheme x path shape x
-// element x lazy-loading attributes. Every failing case prints "GOVC-FAIL <case-key> :: <message>".
+// element x lazy-loading attributes; section (d): kinds of source x bundles of the OTHER attributes of the frame
+// (class, id, title, name, allow, data-*). Every failing case prints "GOVC-FAIL <case-key> :: <message>".
 
 import (
 	"fmt"
+	nurl "net/url"
 	"strings"
 	"testing"
 
@@ -111,7 +113,7 @@ func TestGovcEmbedReplay(t *testing.T) {
 		fmt.Printf("GOVC-INFO embed cases: must=%d may=%d forbidden=%d, cases with a placeholder in the result=%d\n", byExpect[govcC19Must], byExpect[govcC19May], byExpect[govcC19Forbid], withPlaceholder)
 		fmt.Printf("GOVC-INFO embed degenerate-URL cases: %d (of which %d carry no id at all), with a placeholder in the result=%d\n", degEvals, degNoID, degWithPlaceholder)
 		fmt.Printf("GOVC-CASES evaluations=%d distinct_nontrivial=%d rule=%s\n", evals, nontrivial,
-			"(a) 36 hosts (8 allow-listed, 3 unusual spellings, 25 look-alike/userinfo/path/query/fragment tricks) x {https,http,//} x {iframe with the natural path shape, object data= and object param movie (YouTube-like hosts), blockquote.twitter-tweet (Twitter-like hosts)}, plus for https: iframe x the other 5 path shapes and iframe x {data-src, data-lazy-src, data-src same service} holding the opposite kind of URL; (b) degenerate URLs on 6 allow-listed hosts x {https,http,//} x {iframe without and with data-tweet-id, object data= / param movie (YouTube), blockquote.twitter-tweet (Twitter)} x URL remainders {empty, /, //, ///, only a query, /+query, only a fragment, /+fragment, blank segment, the service keyword (embed, v, video, status) without id in 4-5 spellings} where no id exists, and {id/, id//, id/blank, id/?query, id#fragment, doubled slashes} where it does; (c) query parameters on 6 allow-listed hosts x {https, // for two hosts} x {iframe, object data= / param movie (YouTube), blockquote.twitter-tweet (Twitter)} x path shapes with the id in the path {/embed/ID, /v/ID, /v/ID& (old spelling), /embed/ID/, /video/ID, /video/ID/, /user/status/ID} x 26 query strings (v, vi, id, video_id, list, playlist, si, h with id-like or numeric values, alone / before / after other parameters, twice, upper case, empty, with fragment, double-escaped ampersand, t, start/end, rel/autoplay/feature, jsapi/origin, many at once) where data-id must stay the path id, and path shapes without an id {/watch, /watch/, /embed, /embed/, /, /embed/videoseries, /video} x 8 of the query strings (3 hosts, https) where a placeholder is optional but its data-id must be an id occurring in the URL and not the page name; unique id per case, one frame between long paragraphs; non-trivial = both neighbouring paragraphs retained in Result.Text")
+			"(a) 36 hosts (8 allow-listed, 3 unusual spellings, 25 look-alike/userinfo/path/query/fragment tricks) x {https,http,//} x {iframe with the natural path shape, object data= and object param movie (YouTube-like hosts), blockquote.twitter-tweet (Twitter-like hosts)}, plus for https: iframe x the other 5 path shapes and iframe x {data-src, data-lazy-src, data-src same service} holding the opposite kind of URL; (b) degenerate URLs on 6 allow-listed hosts x {https,http,//} x {iframe without and with data-tweet-id, object data= / param movie (YouTube), blockquote.twitter-tweet (Twitter)} x URL remainders {empty, /, //, ///, only a query, /+query, only a fragment, /+fragment, blank segment, the service keyword (embed, v, video, status) without id in 4-5 spellings} where no id exists, and {id/, id//, id/blank, id/?query, id#fragment, doubled slashes} where it does; (c) query parameters on 6 allow-listed hosts x {https, // for two hosts} x {iframe, object data= / param movie (YouTube), blockquote.twitter-tweet (Twitter)} x path shapes with the id in the path {/embed/ID, /v/ID, /v/ID& (old spelling), /embed/ID/, /video/ID, /video/ID/, /user/status/ID} x 26 query strings (v, vi, id, video_id, list, playlist, si, h with id-like or numeric values, alone / before / after other parameters, twice, upper case, empty, with fragment, double-escaped ampersand, t, start/end, rel/autoplay/feature, jsapi/origin, many at once) where data-id must stay the path id, and path shapes without an id {/watch, /watch/, /embed, /embed/, /, /embed/videoseries, /video} x 8 of the query strings (3 hosts, https) where a placeholder is optional but its data-id must be an id occurring in the URL and not the page name; (d) attributes other than the source: 27 sources (22 not allow-listed: foreign hosts with ad / tweet-like / status-like paths, look-alike twitter / youtube / vimeo hosts, vimeo.com without player., user-info and query tricks, empty src, no src, srcdoc only, javascript: alert / void / with //allow-listed-host/ as a comment for the three services, about:blank, data:, relative, fragment; 5 allow-listed: youtube, youtube-nocookie, player.vimeo, platform.twitter, twitter status) x 17 attribute bundles (none; class twitter-tweet-rendered / twitter-tweet with and without data-tweet-id, id twitter-widget-0, title / name of the Twitter widget; class youtube-player, id, title, allow list, data-youtube-id / data-video-id / data-id / data-type; class vimeo, title, data-vimeo-id, name; class embed-placeholder with data-type / data-id; lazy-loading data-src / data-lazy-src pointing to an allow-listed URL; odd advert classes; all at once) x {iframe; object data= and param movie for 11 sources x 10 bundles}, page URL https://www.example.com/...: a not allow-listed source never yields a placeholder, a frame element or the attribute id in the output; an allow-listed source yields the placeholder of its own service with the id of the URL whatever the attributes say (twitter iframe: demanded with data-tweet-id, optional without); unique id per case, one frame between long paragraphs; non-trivial = both neighbouring paragraphs retained in Result.Text")
 	}()
 
 	schemes := []struct{ key, prefix string }{{"https", "https://"}, {"http", "http://"}, {"rel", "//"}}
@@ -658,6 +660,218 @@ func TestGovcEmbedReplay(t *testing.T) {
 								}
 							}
 						}
+					}
+				}
+			}
+		}
+	}
+
+	// ---- (d) ATTRIBUTES OTHER THAN THE SOURCE (appended; the keys above are unchanged) ----
+	// "only if the host of its source is ...": nothing but the source decides. Widget scripts and CMS plug-ins mark
+	// frames with class names (twitter-tweet-rendered, youtube-player, vimeo ...), ids, titles, names, allow lists and
+	// data-* attributes carrying ids; all of these are page-controlled. (d1) a frame whose source is foreign, empty,
+	// absent, a javascript:/about:/data: URL, relative, or on a look-alike host is absent from the result whatever
+	// else it carries, and no value of those attributes reaches the output; (d2) conversely a frame whose source is on
+	// an allow-listed host becomes the placeholder of THAT service with the id of the URL, with odd, missing or
+	// misleading attributes (for the rendered-tweet iframe the id is the data-tweet-id attribute, which the library
+	// requires in addition to the twitter.com source: without it a placeholder is optional).
+	type attrBundle struct {
+		key     string
+		attrs   func(tweet string) string // tweet = the value for id-carrying attributes
+		tweetID bool                      // carries data-tweet-id
+		objects bool                      // also crossed with <object> elements
+	}
+	ab := func(key string, tweetID, objects bool, f func(tw string) string) attrBundle {
+		return attrBundle{key, f, tweetID, objects}
+	}
+	bundles := []attrBundle{
+		ab("none", false, true, func(tw string) string { return `` }),
+		ab("tweet-rendered+tweetid", true, true, func(tw string) string { return `class="twitter-tweet-rendered" data-tweet-id="` + tw + `"` }),
+		ab("tweet+tweet-rendered+tweetid+id", true, false, func(tw string) string {
+			return `id="twitter-widget-0" class="twitter-tweet twitter-tweet-rendered" data-tweet-id="` + tw + `"`
+		}),
+		ab("tweet-rendered", false, false, func(tw string) string { return `class="twitter-tweet-rendered"` }),
+		ab("tweet+tweetid", true, true, func(tw string) string { return `class="twitter-tweet" data-tweet-id="` + tw + `"` }),
+		ab("tweetid", true, false, func(tw string) string { return `data-tweet-id="` + tw + `"` }),
+		ab("twitter-title-name", true, false, func(tw string) string {
+			return `title="Twitter Tweet" name="twitter-widget" scrolling="no" allowtransparency="true" data-tweet-id="` + tw + `"`
+		}),
+		ab("youtube-player", false, true, func(tw string) string { return `class="youtube-player" id="ytplayer" title="YouTube video player"` }),
+		ab("youtube-data-ids", false, true, func(tw string) string {
+			return `class="video-embed youtube" data-youtube-id="` + tw + `" data-video-id="` + tw + `" data-id="` + tw + `" data-type="youtube"`
+		}),
+		ab("youtube-allow", false, false, func(tw string) string {
+			return `title="YouTube video player" allow="accelerometer; autoplay; clipboard-write; encrypted-media; gyroscope; picture-in-picture" allowfullscreen`
+		}),
+		ab("vimeo", false, true, func(tw string) string { return `class="vimeo" title="vimeo-player" data-vimeo-id="` + tw + `"` }),
+		ab("vimeo-player-id", false, false, func(tw string) string {
+			return `id="vimeo-player-1" class="vimeo-player embed-responsive-item" name="vimeo"`
+		}),
+		ab("embed-placeholder", false, true, func(tw string) string {
+			return `class="embed-placeholder" data-type="twitter" data-id="` + tw + `"`
+		}),
+		ab("lazy-twitter", true, false, func(tw string) string {
+			return `class="lazyload twitter-tweet-rendered" data-tweet-id="` + tw + `" data-src="https://platform.twitter.com/embed/Tweet.html?id=` + tw + `"`
+		}),
+		ab("lazy-youtube", false, true, func(tw string) string {
+			return `class="lazyload youtube-player" data-src="https://www.youtube.com/embed/` + tw + `" data-lazy-src="https://www.youtube.com/embed/` + tw + `"`
+		}),
+		ab("odd-classes", false, true, func(tw string) string { return `class="advert sidebar widget promo" id="footer-frame"` }),
+		ab("all-at-once", true, true, func(tw string) string {
+			return `id="twitter-widget-0" class="twitter-tweet twitter-tweet-rendered youtube-player vimeo" title="YouTube video player" name="twitter-widget" allow="autoplay; encrypted-media" data-tweet-id="` + tw + `" data-youtube-id="` + tw + `" data-vimeo-id="` + tw + `"`
+		}),
+	}
+	type attrSource struct {
+		key     string
+		srcAttr func(id string) string // the complete src attribute of an iframe ("" = none); for objects the URL is taken out of it
+		url     func(id string) string // the URL ("" = no URL at all)
+		service string                 // "" = not allow-listed
+		objects bool                   // also as <object data=> / <param name=movie>
+	}
+	as := func(key, service string, objects bool, url func(id string) string) attrSource {
+		return attrSource{key: key, url: url, service: service, objects: objects, srcAttr: func(id string) string { return `src="` + html.EscapeString(url(id)) + `"` }}
+	}
+	sources := []attrSource{
+		// (d1) not allow-listed
+		as("foreign-ad", "", true, func(id string) string { return "https://ads.tracker-network.net/slot?id=77" }),
+		as("foreign-tweet-path", "", false, func(id string) string { return "https://cdn.example.net/embed/Tweet.html?id=" + id }),
+		as("foreign-status-path", "", false, func(id string) string { return "https://social.example.net/someuser/status/" + id }),
+		as("lookalike-twitter", "", true, func(id string) string {
+			return "https://platform.twitter.com.widgets-cdn.net/embed/Tweet.html?id=" + id
+		}),
+		as("lookalike-twitter-prefix", "", false, func(id string) string { return "https://nottwitter.com/someuser/status/" + id }),
+		as("lookalike-youtube", "", true, func(id string) string { return "https://www.youtube.com.evil.org/embed/" + id }),
+		as("lookalike-vimeo", "", false, func(id string) string { return "https://player.vimeo.com.evil.org/video/" + id }),
+		as("vimeo-not-player", "", false, func(id string) string { return "https://vimeo.com/" + id }),
+		as("userinfo-twitter", "", false, func(id string) string { return "https://platform.twitter.com@evil.org/embed/Tweet.html?id=" + id }),
+		as("query-twitter", "", false, func(id string) string { return "https://evil.org/frame?u=https://twitter.com/someuser/status/" + id }),
+		as("empty", "", true, func(id string) string { return "" }),
+		{key: "absent", url: func(string) string { return "" }, srcAttr: func(string) string { return "" }, objects: true},
+		{key: "srcdoc", url: func(string) string { return "" }, srcAttr: func(id string) string { return `srcdoc="&lt;p&gt;tweet ` + id + `&lt;/p&gt;"` }},
+		as("javascript-alert", "", true, func(id string) string { return "javascript:alert(document.domain)" }),
+		as("javascript-void", "", false, func(id string) string { return "javascript:void(0)" }),
+		// a javascript: URL has no host; what follows "javascript:" is script, "//twitter.com/" is a comment in it
+		as("javascript-host-twitter", "", false, func(id string) string { return "javascript://twitter.com/%0Aalert(1)" }),
+		as("javascript-host-youtube", "", true, func(id string) string { return "javascript://www.youtube.com/embed/" + id + "%0Aalert(1)" }),
+		as("javascript-host-vimeo", "", false, func(id string) string { return "javascript://player.vimeo.com/video/" + id + "%0Aalert(1)" }),
+		as("about-blank", "", true, func(id string) string { return "about:blank" }),
+		as("data-url", "", false, func(id string) string { return "data:text/html,<p>tweet</p>" }),
+		as("relative", "", true, func(id string) string { return "/widgets/tweet.html?id=" + id }),
+		as("fragment", "", false, func(id string) string { return "#twitter-widget-0" }),
+		// (d2) allow-listed
+		as("youtube-embed", "youtube", true, func(id string) string { return "https://www.youtube.com/embed/" + id }),
+		as("youtube-nocookie-embed", "youtube", true, func(id string) string { return "https://www.youtube-nocookie.com/embed/" + id + "?rel=0" }),
+		as("vimeo-video", "vimeo", false, func(id string) string { return "https://player.vimeo.com/video/" + id }),
+		as("twitter-platform", "twitter", false, func(id string) string { return "https://platform.twitter.com/embed/Tweet.html?id=" + id }),
+		as("twitter-status", "twitter", false, func(id string) string { return "https://twitter.com/someuser/status/" + id }),
+	}
+	attrPage, _ := nurl.ParseRequestURI("https://www.example.com/news/what-people-said")
+	attrEvals, attrForeign, attrForeignRetained, attrListed, attrListedPlaceholder := 0, 0, 0, 0, 0
+	defer func() {
+		fmt.Printf("GOVC-INFO embed other-attribute cases: %d; not allow-listed source: %d (neighbours retained: %d); allow-listed source: %d (with a placeholder: %d)\n", attrEvals, attrForeign, attrForeignRetained, attrListed, attrListedPlaceholder)
+	}()
+	aseq := 0
+	for _, so := range sources {
+		for _, bu := range bundles {
+			for _, el := range []string{"iframe", "object-data", "object-param"} {
+				if el != "iframe" && (!so.objects || !bu.objects) {
+					continue
+				}
+				aseq++
+				id := fmt.Sprintf("At%05dk", aseq)
+				other := fmt.Sprintf("Ao%05dx", aseq)
+				// the value of the id-carrying attributes: the id itself, except for YouTube / Vimeo sources, where
+				// the id is in the URL and the attributes carry a different one
+				tw := id
+				if so.service == "youtube" || so.service == "vimeo" {
+					tw = other
+				}
+				key := fmt.Sprintf("attrs/%s/%s/%s", so.key, el, bu.key)
+				url := so.url(id)
+				var frame string
+				switch el {
+				case "iframe":
+					frame = `<iframe width="560" height="315" ` + so.srcAttr(id) + ` ` + bu.attrs(tw) + ` frameborder="0"></iframe>`
+				case "object-data":
+					frame = `<object width="560" height="315" type="application/x-shockwave-flash" data="` + html.EscapeString(url) + `" ` + bu.attrs(tw) + `><param name="allowFullScreen" value="true"></object>`
+				case "object-param":
+					frame = `<object width="560" height="315" ` + bu.attrs(tw) + `><param name="movie" value="` + html.EscapeString(url) + `"><param name="allowFullScreen" value="true"><embed src="` + html.EscapeString(url) + `" type="application/x-shockwave-flash" width="560" height="315" ` + bu.attrs(tw) + `></object>`
+				}
+				src := `<html><head><title>Regional water supply report</title></head><body><div id="story">` +
+					govcC19Para("alphafirst") + govcC19Para("alphasecond") + frame + govcC19Para("omegafirst") + govcC19Para("omegasecond") +
+					`</div></body></html>`
+				res, err := ApplyForReader(strings.NewReader(src), &Options{OriginalURL: attrPage})
+				evals++
+				attrEvals++
+				if err != nil {
+					t.Errorf("GOVC-FAIL %s :: embed case returned error %v", key, err)
+					continue
+				}
+				retained := strings.Contains(res.Text, "alphasecond") && strings.Contains(res.Text, "omegafirst")
+				if retained {
+					nontrivial++
+				}
+				placeholders := dom.QuerySelectorAll(res.Node, "div.embed-placeholder")
+				var frames []string
+				for _, n := range dom.QuerySelectorAll(res.Node, "iframe,object,embed,param") {
+					frames = append(frames, dom.TagName(n))
+				}
+				desc := "none"
+				if len(placeholders) > 0 {
+					desc = fmt.Sprintf("%d placeholder(s), first type=%q id=%q", len(placeholders), govcC19Attr(placeholders[0], "data-type"), govcC19Attr(placeholders[0], "data-id"))
+				}
+				if so.service == "" {
+					attrForeign++
+					if retained {
+						attrForeignRetained++
+					}
+					if len(placeholders) > 0 {
+						t.Errorf("GOVC-FAIL %s/placeholder :: embed placeholder (%s) produced for a frame whose source is not on an allow-listed host; only the host of the source decides, not class, id, title, name, allow or data-* attributes: %s", key, desc, frame)
+					}
+					if len(frames) > 0 {
+						t.Errorf("GOVC-FAIL %s/frame :: embed: frame element(s) %v whose source is not on an allow-listed host reached the distilled HTML: %s", key, frames, frame)
+					}
+					if out := dom.OuterHTML(res.Node); strings.Contains(out, id) {
+						t.Errorf("GOVC-FAIL %s/attribute-id :: embed: the id carried by the attributes / URL of a not allow-listed frame reached the distilled HTML: %s", key, frame)
+					}
+					continue
+				}
+				attrListed++
+				if len(placeholders) > 0 {
+					attrListedPlaceholder++
+				}
+				must := true
+				if so.service == "twitter" && !bu.tweetID {
+					must = false // the rendered-tweet iframe is identified by data-tweet-id in addition to its source
+				}
+				if len(placeholders) == 0 {
+					if must && retained {
+						t.Errorf("GOVC-FAIL %s/missing :: embed: no placeholder for a frame whose source is on the allow-listed %s host (neighbours retained); odd, missing or misleading attributes do not matter: %s", key, so.service, frame)
+					}
+					if len(frames) > 0 {
+						t.Errorf("GOVC-FAIL %s/bare-frame :: embed: frame element(s) %v outside a placeholder in the distilled HTML: %s", key, frames, frame)
+					}
+					continue
+				}
+				if len(placeholders) != 1 {
+					t.Errorf("GOVC-FAIL %s/count :: embed: %d placeholders for one frame: %s", key, len(placeholders), frame)
+				}
+				ph := placeholders[0]
+				if got := govcC19Attr(ph, "data-type"); got != so.service {
+					t.Errorf("GOVC-FAIL %s/type :: embed placeholder has data-type %q, the host of the source belongs to %q (class names and other attributes do not name the service): %s", key, got, so.service, frame)
+				}
+				if got := govcC19Attr(ph, "data-id"); got != id {
+					t.Errorf("GOVC-FAIL %s/id :: embed placeholder has data-id %q, the id of the source URL is %q (the other id-carrying attributes hold %q): %s", key, got, id, tw, frame)
+				}
+				for _, n := range dom.QuerySelectorAll(res.Node, "iframe,object,embed") {
+					inside := false
+					for a := n.Parent; a != nil; a = a.Parent {
+						if a == ph {
+							inside = true
+						}
+					}
+					if !inside {
+						t.Errorf("GOVC-FAIL %s/outside :: embed: <%s> outside the placeholder in the distilled HTML: %s", key, dom.TagName(n), frame)
 					}
 				}
 			}
